@@ -63,7 +63,7 @@ fn gen_cfg(rng: &mut Rng, expose: bool) -> Cfg {
     let sub = ["一般", "*", "固有", "x,y", "\"q", "i\"j", " 一般", "固有 ", "\u{3000}"];
     let base = ["基", "*", "b2"];
     let read = ["ア", "イ", "*"];
-    let surf = ["a", "b", "ab", "ba", "c", "猫", "犬", "走る", "bc", "a,b"];
+    let surf = ["a", "b", "ab", "ba", "c", "猫", "犬", "走る", "bc", "a,b", "#猫", "#"];
     let feats = |rng: &mut Rng| -> String {
         let n = 2 + rng.below(3) as usize;
         let v = [quote(*rng.pick(&pos[..])), quote(*rng.pick(&sub[..])), quote(*rng.pick(&base[..])), quote(*rng.pick(&read[..]))];
@@ -85,8 +85,12 @@ fn gen_cfg(rng: &mut Rng, expose: bool) -> Cfg {
     let k = match rng.below(4) { 0 => 8 + rng.below(3) as usize, 1 => 1, _ => 2 + rng.below(5) as usize };
     let mut bigrams = vec![];
     let bare_right = rng.chance(1, 10);
+    // 1 configuration in 8 with more than 8 templates: the first eight left templates are optional references to one
+    // column that is '*' for some rows (a whole leading 8-lane block without a feature, features only in later blocks)
+    let lead_col: Option<u64> = if k > 8 && rng.chance(1, 2) { Some(1 + rng.below(3)) } else { None };
     for p in 0..k {
         let side = |rng: &mut Rng, c: char| -> String {
+            if let (Some(col), true) = (lead_col, p < 8) { if c == 'L' || rng.chance(1, 2) { return format!("%{}?[{}]", c, col); } }
             let n = 1 + rng.below(2);
             (0..n).map(|_| format!("%{}{}[{}]", c, if rng.chance(1, 4) { "?" } else { "" }, if rng.chance(1, 12) { 10 + rng.below(3) } else { rng.below(4) })).collect::<Vec<_>>().join(",")
         };
@@ -297,6 +301,29 @@ pub fn run(prop: &str, seed: u64, n: usize, outdir: &str, _corpus: Option<&str>)
         m3.read_user_lexicon(c.user.as_bytes()).ok();
         let g4 = generate(&mut m3).unwrap();
         flags.push(("c15_cache_free_reference".into(), same_files(&f1, &g4) as u8));
+        // the model written AFTER the user lexicon was read: read back it generates the same lexicon, matrix, unk and
+        // bigram files (its user.csv is empty: the user entries themselves are not part of the model file)
+        {
+            let mut mb2 = vec![];
+            let ok = model.write_model(&mut mb2).is_ok();
+            let same = match Model::read_model(&mb2[..]) {
+                Ok(mut m4) => match generate(&mut m4) { Some(g5) => g5.lex == f1.lex && g5.matrix == f1.matrix && g5.unk == f1.unk && g5.left == f1.left && g5.right == f1.right && sorted_lines(&g5.cost) == sorted_lines(&f1.cost), None => false },
+                Err(_) => false,
+            };
+            flags.push(("c15_written_after_user_lexicon".into(), (ok && same) as u8));
+            // two models written back to back into one stream are read back one after the other
+            let mut both = mbytes.clone();
+            both.extend_from_slice(&mb2);
+            let mut cur = std::io::Cursor::new(&both[..]);
+            let first = Model::read_model(&mut cur);
+            let pos_ok = cur.position() as usize == mbytes.len();
+            let second = Model::read_model(&mut cur);
+            let two = match (first, second) {
+                (Ok(mut a), Ok(mut b)) => pos_ok && generate(&mut a).map_or(false, |x| same_files(&x, &f0)) && generate(&mut b).map_or(false, |x| x.lex == f1.lex && x.matrix == f1.matrix),
+                _ => false,
+            };
+            flags.push(("c15_two_models_in_one_stream".into(), two as u8));
+        }
         // known-finding class K3 applies only when bigram.cost really lists the bare string '*' as a feature
         let star_listed = String::from_utf8_lossy(&f1.cost).lines().any(|l| l.split('\t').next().map_or(false, |f| f.split('/').any(|x| x == "*")));
         flags[0].1 = (c.bare_right && star_listed) as u8;
